@@ -120,9 +120,13 @@ def check_reuse(n, prog, edit, method, env, acc):
     case = {"scenario": "reuse", "n_qubits": n, "prog": prog, "edit": edit, "method": method, "seed": env.seed}
     base = tomo.build_base(n, prog)
     acc.tick("executions", 2); acc.tick("transitions", 2); acc.tick("reuse_scenarios")
+    def garbage(circuits, inputs):          # a first, useless experiment the object is constructed with
+        return [{lw.State(list(tomo.rq.dual_rail(b))): 1.0 for b in itertools.product([0, 1], repeat=n)} for _ in circuits]
+
     try:
         if method == "GF":
-            g = GateFidelity(n, base, experiment_for(n))
+            g = GateFidelity(n, base, garbage)
+            g.experiment = experiment_for(n)           # replaced before use: the replacement is what must run
             V1, _ = tomo.qubit_unitary(base, n)
             f1 = g.process(V1)
             for gg, q in edit:
@@ -132,7 +136,8 @@ def check_reuse(n, prog, edit, method, env, acc):
             if abs(f1 - 1) > 1e-8 or abs(f2 - 1) > 1e-8:
                 acc.violation("second_process_call_ignores_edited_base_circuit", case, {"first": float(f1), "second": float(f2)})
             return
-        t = (LIProcessTomography if method == "LI" else MLEProcessTomography)(n, base, experiment_for(n))
+        t = (LIProcessTomography if method == "LI" else MLEProcessTomography)(n, base, garbage)
+        t.experiment = experiment_for(n)
         c1 = t.process().copy()
         V1, _ = tomo.qubit_unitary(base, n)
         ref1 = choi_from_unitary(V1)
